@@ -326,6 +326,9 @@ def late_features(spec, feat):
             spec["path_objective"] = ["+", spec["path_objective"], ["*", ["c", str(dy(r2, 1, 3))], ["v", "k0"]]]
         if spec.get("path_constraints"):
             spec["path_constraints"][0][0] = ["+", spec["path_constraints"][0][0], ["v", "k0"]]
+    if feat.get("equidistant_flag") and r2.random() < 0.5:
+        # what an I/O mixin reports about its (equidistant) import data; says nothing about the grids used here
+        spec["equidistant"] = True
     pars = spec.get("parameters", [])
     if feat.get("retranscribe") and pars and r2.random() < 0.5:
         # parameters declared dynamic: the problem is transcribed once with other values, then again with
